@@ -543,16 +543,14 @@ Verdict run_C18_cli(const Scn &s) {
 
 // ---------------------------------------------------------------- C02 on the command-line path
 // `wencry -e -i F -o G -k <base64 string> --cmode c --hmode h` must write exactly the documented file for the key that the
-// string denotes (RFC 4648), the modes given, four streams, and the seed the parser drew: 256 bytes of rand() after
-// srand(time), used as a C string.  The clock is simulated, so the seed is known whenever those bytes contain a zero.
+// string denotes (RFC 4648), the modes given and four streams.  The seed is the parser's business (256 bytes of rand() after
+// srand(time), read as a C string - or whatever a later version draws): the comparison starts from the first IV found in
+// the file, which is all the format lets an observer know about the seed, and checks everything else: magic, mode bytes,
+// zero fill, the SHA-1 chain of the other IVs, the body under that IV, the tag.  (Whether the first IV is the SHA-1 of
+// the modelled seed is counted as a probe; that it depends on the seed at all is C18's command-line scenario.)
 Verdict run_C02_cli(const Scn &s) {
   Verdict v;
   long simtime = s.geti("t1");
-  srand((unsigned)simtime);
-  Bytes seedstr;
-  bool terminated = false;
-  for (int i = 0; i < 256; i++) { uint8_t b = (uint8_t)rand(); if (b == 0) { terminated = true; break; } seedstr.push_back(b); }
-  if (!terminated) { v.skipped = true; v.skip_reason = "cli-seed-not-terminated"; return v; }   // the seed then depends on what follows the buffer
   char tmpl[512];
   snprintf(tmpl, sizeof tmpl, "%s/c02-XXXXXX", g_outdir.empty() ? "/tmp" : g_outdir.c_str());
   if (!mkdtemp(tmpl)) { snprintf(tmpl, sizeof tmpl, "/tmp/c02-XXXXXX"); if (!mkdtemp(tmpl)) { v.skipped = true; v.skip_reason = "no-scratch-dir"; return v; } }
@@ -578,13 +576,24 @@ Verdict run_C02_cli(const Scn &s) {
   Bytes E(o[0].out.begin(), o[0].out.end() - 1);
   v.trace_hash = fnv1a(FNV_INIT, E.data(), E.size());
   Bytes P = make_plain(len, (uint64_t)pseed, 0, build_chunk_bytes());
-  Bytes R = ref_encrypt_file(P, key.data(), (int)cm, (int)hm, seedstr, 4, build_chunk_bytes());
+  const std::string what = "file written by `wencry -e -k " + k64 + " --cmode " + std::to_string(cm) + " --hmode " + std::to_string(hm) + "` (" + std::to_string(E.size()) + " bytes)";
+  if (E.size() < 68) { Verdict x = V("format@cli", what + " is shorter than a header with one IV"); x.trace_hash = v.trace_hash; return x; }
+  Bytes R = ref_encrypt_file_iv0(P, key.data(), (int)cm, (int)hm, &E[48], 4, build_chunk_bytes());
   if (E != R) {
     size_t k = 0;
     while (k < E.size() && k < R.size() && E[k] == R[k]) k++;
-    Verdict x = V("format@cli", "file written by `wencry -e -k " + k64 + " --cmode " + std::to_string(cm) + " --hmode " + std::to_string(hm) + "` (" + std::to_string(E.size()) + " bytes) differs from the documented format for that key, those modes, 4 streams and the seed drawn at time " + std::to_string(simtime) + " (" + std::to_string(R.size()) + " bytes), first at offset " + std::to_string(k));
+    Verdict x = V("format@cli", what + " differs from the documented format for that key, those modes, 4 streams and the first IV it carries (" + std::to_string(R.size()) + " bytes), first at offset " + std::to_string(k));
     x.trace_hash = v.trace_hash;
     return x;
+  }
+  // probe: is the first IV the SHA-1 of the seed as modelled (C string of the 256 rand() bytes drawn after srand(simulated time))?
+  srand((unsigned)simtime);
+  Bytes seedstr;
+  bool terminated = false;
+  for (int i = 0; i < 256; i++) { uint8_t b = (uint8_t)rand(); if (b == 0) { terminated = true; break; } seedstr.push_back(b); }
+  if (terminated) {
+    Bytes iv0 = ref_hash(0, seedstr.data(), seedstr.size());
+    g_stats.add(memcmp(iv0.data(), &E[48], 20) == 0 ? "probe.cli_first_iv_is_sha1_of_modelled_seed" : "probe.cli_first_iv_from_another_seed_source", 1);
   }
   return v;
 }
